@@ -62,6 +62,37 @@ main(int argc, char **argv)
                         }
                 }
         }
+        /* "any table-driven product of c with a byte equals the field product": the constant-multiply kernels (every variant) over a 512-byte
+         * buffer that holds every byte value twice, at two different offsets within the 32-byte groups the kernels work in */
+        {
+                static unsigned char src[512] __attribute__((aligned(64))), dst[512] __attribute__((aligned(64)));
+                extern int gf_vect_mul_sse(int, unsigned char *, void *, void *);
+                extern int gf_vect_mul_avx(int, unsigned char *, void *, void *);
+                int v, i;
+                for (i = 0; i < 256; i++) {
+                        src[i] = (unsigned char) i;
+                        src[256 + i] = (unsigned char) (i * 7 + 13);   /* a permutation of the byte values (7 is odd) */
+                }
+                for (c = 0; c < 256; c++) {
+                        unsigned char t[32];
+                        gf_vect_mul_init(c, t);
+                        for (v = 0; v < 4; v++) {
+                                int ret = 0;
+                                memset(dst, 0xEE, sizeof(dst));
+                                if (v == 0)
+                                        gf_vect_mul_base(512, t, src, dst);
+                                else if (v == 1)
+                                        ret = gf_vect_mul(512, t, src, dst);
+                                else if (v == 2)
+                                        ret = gf_vect_mul_sse(512, t, src, dst);
+                                else
+                                        ret = gf_vect_mul_avx(512, t, src, dst);
+                                fprintf(o, "{\"t\":\"vmul\",\"src\":\"gf_vect_mul%s\",\"c\":%d,\"ret\":%d,\"out\":", v == 0 ? "_base" : v == 1 ? "" : v == 2 ? "_sse" : "_avx", c, ret);
+                                vh_put_bytes(o, dst, 512);
+                                fprintf(o, "}\n");
+                        }
+                }
+        }
         memset(tbl, 0xEE, sizeof(tbl));
         ec_init_tables_gfni(16, 16, all, tbl);
         for (c = 0; c < 256; c++) {
